@@ -6,11 +6,20 @@
 (* compared by inequality, so a more conservative sizing is never an alarm.           *)
 EXTENDS PCommon
 Pow2(k) == 2 ^ k
+\* Gross statistical clauses (deterministic for a given VERIF_SEED): the number of false positives among PROBES
+\* never-inserted keys is compared with  rate * PROBES + 6 sigma + 10,  sigma^2 <= rate * PROBES, rate = r * a / (c * 10)
+\* (r = 13 for Bloom's 1.3 p, 10 for the cuckoo filter's p).  isqrt by search keeps everything in integers.
+RECURSIVE ISqrtUp(_, _)
+ISqrtUp(x, r) == IF r * r >= x THEN r ELSE ISqrtUp(x, r + 1)
+Allowed(r10, a, c, probes) ==
+    LET mean == (r10 * a * (probes \div 10)) \div c + 1       \* rate * probes, rounded up
+    IN mean + 6 * ISqrtUp(mean, 0) + 10
 CuckooClauses(e, c, nm) ==
     Cl("C07.cuckooUsable (" \o nm \o "): constructor and use do not panic", c.res = "ok") \cup
     (IF c.res # "ok" THEN {} ELSE
        Cl("C07.cuckooAcceptsNDistinctInsertsWithoutFull (" \o nm \o ")", c.full = 0) \cup
        Cl("C07.cuckooNoFalseNegative (" \o nm \o ")", c.missing = 0) \cup
+       Cl("C07.cuckooFalsePositiveFrequency at most about p (6-sigma margin) (" \o nm \o ")", c.fp <= Allowed(10, e.a, e.c, c.probes)) \cup
        Cl("C07.cuckooCapacity (" \o nm \o ")", c.n_buckets * c.bucketsize >= e.n) \cup
        Cl("C07.cuckooRateBound 2b/2^l <= p (" \o nm \o ")",
           c.l >= 31 \/ Pow2(c.l) * e.a >= 2 * c.bucketsize * e.c))
@@ -18,7 +27,13 @@ Failing(e) ==
     Cl("C07.bloomUsable: at least one hash function and one bit, no panic on use", e.bloom.res = "ok" /\ e.bloom.k >= 1 /\ e.bloom.m >= 1) \cup
     (IF e.bloom.res # "ok" THEN {} ELSE
        Cl("C07.bloomAcceptsNDistinctInserts", e.bloom.failed = 0) \cup
-       Cl("C07.bloomNoFalseNegative", e.bloom.missing = 0)) \cup
+       Cl("C07.bloomNoFalseNegative", e.bloom.missing = 0) \cup
+       \* only for n >= 1000: for small n (hence small m) the bit occupancy itself fluctuates by several percent from
+       \* one hasher seed to the next, which a single-seed measurement cannot average out
+       Cl("C07.bloomFalsePositiveFrequency: at most about 1.3 p (n >= 1000, 6-sigma margin on the probe sample)",
+          e.n >= 1000 => e.bloom.fp <= Allowed(13, e.a, e.c, e.bloom.probes)) \cup
+       Cl("C07.bloomLenTracksDistinctInserts: within 10% + 10 for n >= 1000 while at most half the bits are set",
+          (e.n >= 1000 /\ 2 * e.bloom.ones <= e.bloom.m) => (10 * e.bloom.len <= 11 * e.n + 100 /\ 10 * e.bloom.len + 100 >= 9 * e.n))) \cup
     CuckooClauses(e, e.ck4, "with_properties_4") \cup
     CuckooClauses(e, e.ck8, "with_properties_8")
 Init == PInit
